@@ -159,10 +159,25 @@ def search_step(seed, n):
     for k in range(n):
         rng = Rng(seed, "c03search|%d" % k)
         g, desc = G.make_graph(rng, noise=rng.choice([0.05, 0.3]), well_posed=True, fix=rng.choice(["first", "random"]))
-        ffp = rng.random() < 0.5
-        if ffp:
-            g._vertices[0].fixed = True
+        if rng.random() < 0.25:
+            # the same edge objects were used for an earlier Graph over other Vertex objects (which was then optimised): the
+            # new graph's step is computed from, and applied to, the new graph's own vertices
+            from graphslam.graph import Graph as _Graph
+            from graphslam.vertex import Vertex as _Vertex
+
+            try:
+                quiet_optimize(g, tol=0.0, max_iter=2, fix_first_pose=False)
+            except Exception:  # noqa
+                pass
+            vs = [_Vertex(v["id"], G.mk_pose(v["cls"], v["vals"]), fixed=bool(v["fixed"])) for v in desc["vertices"]]
+            perm = list(range(len(vs)))
+            if desc["world"] != "mixed":
+                rng.shuffle(perm)
+            g = _Graph(list(g._edges), [vs[i] for i in perm])
+            desc = dict(desc, reused_edges=True, vertex_order=perm)
         for rnd in range(rng.choice([1, 2, 3])):
+            # fix_first_pose is passed to optimize() itself: the free set is the caller's flags plus the first vertex
+            ffp = rng.random() < 0.5
             if rnd > 0:
                 # the caller edits the flags between two calls: mostly growing the fixed set, sometimes releasing vertices
                 # (one originally fixed vertex per connected component stays fixed, so the problem stays well posed)
@@ -173,16 +188,20 @@ def search_step(seed, n):
                     elif v.fixed and rng.random() < 0.15 and len(keep) > 1 and desc["world"] != "mixed":
                         v.fixed = False
                         keep.remove(v)
-            w = dict(call=rnd + 1, fixed=[v.id for v in g._vertices if v.fixed])
+            flags_before = [bool(v.fixed) for v in g._vertices]
+            want_fixed = [f or (ffp and i == 0) for i, f in enumerate(flags_before)]
+            w = dict(call=rnd + 1, fix_first_pose=ffp, fixed=[v.id for v, f in zip(g._vertices, want_fixed) if f])
             # edges naming the same vertex twice are outside C03's quantifier
             H, b = dense_normal_equations(g)
-            free = np.concatenate([np.arange(v.gradient_index, v.gradient_index + v.pose.COMPACT_DIMENSIONALITY) for v in g._vertices if not v.fixed] or [np.array([], dtype=int)]).astype(int)
+            free = np.concatenate([np.arange(v.gradient_index, v.gradient_index + v.pose.COMPACT_DIMENSIONALITY) for v, f in zip(g._vertices, want_fixed) if not f] or [np.array([], dtype=int)]).astype(int)
             before = [(v, np.array(v.pose)) for v in g._vertices]
             try:
-                quiet_optimize(g, tol=0.0, max_iter=1, fix_first_pose=False)
+                quiet_optimize(g, tol=0.0, max_iter=1, fix_first_pose=ffp)
             except Exception as ex:  # noqa
                 return dict(kind="step", what="optimize raised %s: %s" % (type(ex).__name__, ex), match="optimize-raised", desc=desc, **w), ev, skipped
             ev += 1
+            if [bool(v.fixed) for v in g._vertices] != want_fixed:
+                return dict(kind="step", what="fixed flags after the call are not the caller's flags plus the first vertex when fix_first_pose", match="fixed-flags", flags=[bool(v.fixed) for v in g._vertices], expected=want_fixed, desc=desc, **w), ev, skipped
             for v, p0 in before:
                 if v.fixed and np.array(v.pose).tobytes() != p0.tobytes():
                     return dict(kind="step", what="fixed vertex moved", match="fixed-vertex-moved", vertex=v.id, desc=desc, **w), ev, skipped
@@ -537,7 +556,17 @@ def search_convergence(seed, n):
             byid[shared[1]].pose = byid[shared[0]].pose
             desc["shared_pose_object"] = list(shared)
             stats["shared_pose_object"] = stats.get("shared_pose_object", 0) + 1
-        tol = 10 ** rng.uniform(-10, -4)
+        # Gauss-Newton and the documented (relative) stopping rule are invariant under a common scaling of all information
+        # matrices: a third of the graphs get a scale between 1e-9 and 1e3 (every absolute threshold below scales with it)
+        iscale = 1.0
+        if rng.random() < 0.35:
+            # (noise-free runs end at chi2 -> 0, where the `+ eps` of the documented rule decides once chi2_prev < tol * 2.2e-16:
+            #  their scale stays >= 1e-6 so that the absolute thresholds below remain above that level)
+            iscale = 10 ** rng.uniform(-6 if noise_free else -9, 3)
+            for e in g._edges:
+                e.information = np.asarray(e.information, dtype=np.float64) * iscale
+            desc = dict(desc, information_scale=iscale)
+        tol = 10 ** rng.uniform(-10, -4) if rng.random() < 0.7 else 10 ** rng.uniform(-4, -2)
         second_call = rng.random() < 0.3
         for call in ((1, 2) if second_call else (1,)):
             if call == 2:
@@ -551,21 +580,21 @@ def search_convergence(seed, n):
                     if not v.fixed:
                         v.pose = v.pose + np.array([rng.gauss(0, cal["init"] * 0.5) for _ in range(v.pose.COMPACT_DIMENSIONALITY)])
                 stats["second_calls"] = stats.get("second_calls", 0) + 1
-            wit, lam_ratio = _judge_convergence(g, desc, world, tol, noise_free, call, stats)
+            wit, lam_ratio = _judge_convergence(g, desc, world, tol, noise_free, call, stats, iscale)
             ev += 1
             if wit:
                 return wit, ev, stats
     return None, ev, stats
 
 
-def _judge_convergence(g, desc, world, tol, noise_free, call, stats):
+def _judge_convergence(g, desc, world, tol, noise_free, call, stats, iscale=1.0):
     chi0 = float(g.calc_chi2())
     r = quiet_optimize(g, tol=tol, max_iter=100, fix_first_pose=True)
     ev = 0
     w = lambda what, **kw: (dict(kind="convergence", what=what, match="convergence:" + what, world=world, tol=tol, noise_free=noise_free, call=call, fixed=[v.id for v in g._vertices if v.fixed], desc=desc, **kw), ev, stats)
     if not math.isfinite(float(r.final_chi2)):
         return w("non-finite final chi2")[0], 0.0
-    if not float(r.final_chi2) <= chi0 * (1 + 1e-9) + 1e-12:
+    if not float(r.final_chi2) <= chi0 * (1 + 1e-9) + 1e-12 * iscale:
         return w("final chi2 exceeds initial chi2", initial=chi0, final=float(r.final_chi2))[0], 0.0
     if not r.converged:
         return w("did not converge within 100 iterations", num_iterations=r.num_iterations)[0], 0.0
@@ -573,14 +602,14 @@ def _judge_convergence(g, desc, world, tol, noise_free, call, stats):
     if lam2 is None:
         stats["skipped_ill_conditioned"] += 1
         return None, 0.0
-    bound = 20 * tol * max(float(r.final_chi2), 1e-12) + 1e-10
+    bound = 20 * tol * max(float(r.final_chi2), 1e-12 * iscale) + 1e-10 * iscale
     stats["worst_decrement_ratio"] = max(stats["worst_decrement_ratio"], lam2 / bound)
     if not lam2 <= bound:
         return w("Newton decrement above the tolerance scale", decrement=lam2, bound=bound, final_chi2=float(r.final_chi2))[0], 0.0
     if noise_free:
         stats["noise_free"] += 1
         # relative poses of the ground truth are reproduced (the anchor is the first vertex, possibly perturbed: compare edges)
-        if not float(r.final_chi2) <= 1e-10:
+        if not float(r.final_chi2) <= 1e-10 * iscale:
             return w("noise-free measurements not reproduced: chi2 > 0", final_chi2=float(r.final_chi2))[0], 0.0
         for e in g._edges:
             if np.max(np.abs(np.asarray(e.calc_error()))) > 1e-6:
